@@ -671,6 +671,10 @@ class _PairsClassifierMixin(BaseMetricLearner, ClassifierMixin):
       cum_tn_inverted = stable_cumsum(y_ordered[::-1] == -1)
       cum_tn = np.concatenate([[0.], cum_tn_inverted])[::-1]
       cum_accuracy = (cum_tp + cum_tn) / n_samples
+      # a threshold cannot separate pairs that have the same score, so only
+      # the cut-offs falling after the last pair of a group of ties are valid
+      valid = np.concatenate([[True], np.diff(scores_sorted[1:]) != 0, [True]])
+      cum_accuracy[~valid] = -np.inf
       imax = np.argmax(cum_accuracy)
       # we set the threshold to the lowest accepted score
       # note: we are working with negative distances but we want the threshold
